@@ -72,6 +72,7 @@ ASSUMPTIONS = [
     "recording callbacks stand for arbitrary validators/converters/hooks: which ran, in which order, and which one raised is what is compared",
     "the inheritance relation between the classes of a case is harness-only: the model judges every reader by the resolved field list of the class named (C20_readers_memoryless); all classes of a hierarchy use the same front-end and class-level on_setattr; a plain class in between only for dict classes (K6 concerns slotted ones)",
     "single-threaded use (the switch is documented as not thread-safe)",
+    "class options the switch semantics must not depend on are harness-only variation: slots, kw_only, cache_hash(+unsafe_hash), auto_exc exception classes, __attrs_init__, and frozen (frozen=True / attrs.frozen / inherited from a frozen root) on hook-less hierarchies, where assignments of the history become validate() of the same instance (a frozen instance cannot be assigned to)",
     "FIXED READING of an ambiguity ('iff globally enabled' -- at which instant?): a construction follows the switch as it is when its validators step is reached, i.e. after the pre-init hook, factories and converters of that construction ran (what the unchanged code does); set_disabled()/set_run_validators() called from inside such a callback is a switch operation like any other; validate(inst) reads the switch once when called",
     "callback bodies close the blocks they open; they may leave the switch flipped (setters outside blocks) unless the probing callback can run during one of the history's assignments (each hook of an assignment reads the switch for itself; flips between them are not modelled); after an operation whose callback bodies can leave the switch flipped the harness puts the switch back to the position the operation found, so the history continues from there; nested readers' own callbacks have no bodies (depth 1)",
     "construction is modelled through the shared initializer model (Model/Init.lean), tied to the code by the C01/C02 correspondence as well",
@@ -267,12 +268,33 @@ def resolve(hier):
     return out
 
 
+def _hookless(hier):
+    return hier["clsOnSet"] == "unset" and all(f["onSet"] == "unset" for nd in hier["nodes"] for f in nd["own"])
+
+
+def _no_assign(ops):
+    """frozen instances cannot be assigned to: the assignment becomes a validate() of the same instance"""
+    return [({"validate": {"k": o["assign"]["k"]}} if isinstance(o, dict) and "assign" in o else o) for o in ops]
+
+
 def mk_case(hier, fault, start, ops, cfg, probe=None, body=()):
-    return {"classes": resolve(hier), "hier": hier, "fault": fault, "probe": probe, "body": list(body) if probe else [],
+    body = list(body) if probe else []
+    cfg = dict(cfg)
+    if cfg.get("frozen"):
+        # class options the switch must not depend on: frozen classes cannot have on_setattr hooks
+        if _hookless(hier):
+            ops, body = _no_assign(ops), _no_assign(body)
+        else:
+            cfg["frozen"] = None
+    return {"classes": resolve(hier), "hier": hier, "fault": fault, "probe": probe, "body": body,
             "start": start, "ops": ops, "cfg": cfg}
 
 
 _BUILDS = [0]
+
+
+def _has_assign(case):
+    return any(isinstance(o, dict) and "assign" in o for o in list(case["ops"]) + list(case.get("body") or []))
 
 
 def build(case):
@@ -292,6 +314,10 @@ def build(case):
         kw["init"] = False            # the same script becomes `__attrs_init__`
     if cfg.get("exc") and not is_define:
         kw["auto_exc"] = True
+    frozen = cfg.get("frozen") if _hookless(hier) and not _has_assign(case) else None
+    if cfg.get("cacheHash") and not cfg.get("exc") and not cfg.get("attrsInit"):
+        kw["cache_hash"] = True
+        kw["unsafe_hash"] = True
     deco = attrs.define if is_define else attr.s
     _BUILDS[0] += 1
     if _BUILDS[0] % 2000 == 0:
@@ -307,7 +333,12 @@ def build(case):
             ns["__attrs_pre_init__"] = _pre_noargs if node["pre"] == "noArgs" else _pre_withargs
         if node.get("post"):
             ns["__attrs_post_init__"] = _post
-        classes.append(deco(**kw)(type("K%d" % k, (base,), ns)))
+        kwk, dk = dict(kw), deco
+        if frozen == "attrs.frozen" and is_define:
+            dk = attrs.frozen                                  # define(frozen=True, on_setattr=None)
+        elif frozen in ("direct", "attrs.frozen") or (frozen == "inherited" and node["parent"] is None):
+            kwk["frozen"] = True                               # "inherited": only the root says so
+        classes.append(dk(**kwk)(type("K%d" % k, (base,), ns)))
     return [(K, [f["name"] for f in c["fields"]], [f["name"] for f in c["fields"] if _passed(f)])
             for K, c in zip(classes, case["classes"])]
 
@@ -675,6 +706,8 @@ def _rand_cfg(rng):
         "adopt": rng.random() < 0.7,
         "attrsInit": rng.random() < 0.2,
         "exc": rng.random() < 0.15,
+        "frozen": rng.choice([None, None, None, "direct", "attrs.frozen", "inherited"]),
+        "cacheHash": rng.random() < 0.2,
     }
 
 
@@ -1033,19 +1066,19 @@ def gen_cases(tier, rng):
     for hier, fault in MULTI:
         yield from _sweeps(hier, fault, rng)
         yield from _sweeps(hier, None, rng)
-    for _ in range(12 if tier == "quick" else 150):
+    for _ in range(12 if tier == "quick" else 70):
         hier, fault = _rand_hier(rng)
         if len(hier["nodes"]) > 1:
             yield from _sweeps(hier, fault, rng)
     # every callback doing nested work under every reader
     for hier, fault in (POOL if tier == "thorough" else rng.sample(POOL, 10)):
         yield from _probe_sweeps(hier, fault if rng.random() < 0.5 else None, rng)
-    for _ in range(6 if tier == "quick" else 80):
+    for _ in range(6 if tier == "quick" else 35):
         hier, fault = _rand_hier(rng)
         yield from _probe_sweeps(hier, fault, rng)
     for hier, fault in (POOL if tier == "thorough" else rng.sample(POOL, 8)):
         yield from _flip_sweeps(hier, fault if rng.random() < 0.3 else None, rng)
-    for _ in range(5 if tier == "quick" else 60):
+    for _ in range(5 if tier == "quick" else 25):
         hier, fault = _rand_hier(rng)
         yield from _flip_sweeps(hier, fault, rng)
     # exhaustive block
@@ -1063,7 +1096,7 @@ def gen_cases(tier, rng):
                 yield _unfire(mk_case(hier, fault, start, _bind(_close(ops, rng), resolve(hier), rng), _rand_cfg(rng),
                                       probe, body))
     # random block: longer histories, random hierarchies, non-bool arguments, get operations
-    n = 1_000_000 if tier == "quick" else 90_000
+    n = 1_000_000 if tier == "quick" else 45_000
     for _ in range(n):
         hier, fault = _rand_hier(rng) if rng.random() < 0.8 else rng.choice(POOL)
         hier = _restyle(hier, rng)
@@ -1143,6 +1176,8 @@ def dist(case, obs):
             and any(f["validators"] for f in case["classes"][_op(o)[1]["k"]]["fields"]))),
         "assign_values": ",".join(sorted({_op(o)[1].get("v", "fresh") for o in case["ops"] if _op(o)[0] == "assign"})),
         "instance_adopted_from_construct": bool(cfg.get("adopt", True)),
+        "frozen": cfg.get("frozen") if _hookless(hier) and not _has_assign(case) else None,
+        "cache_hash": bool(cfg.get("cacheHash")) and not cfg.get("exc") and not cfg.get("attrsInit"),
         "init_via": "__attrs_init__" if cfg.get("attrsInit") else "__init__",
         "exception_class": bool(cfg.get("exc")),
         "build_disabled": cfg.get("buildDisabled"),
@@ -1206,7 +1241,8 @@ def shrink(case):
         yield dict(case, start=True)
     cfg = case.get("cfg", {})
     base = {"slots": None, "bare": True, "buildDisabled": False, "earlyCm": False,
-            "excKinds": ["valueError"], "via": "attr", "realWith": False, "attrsInit": False, "exc": False, "adopt": False}
+            "excKinds": ["valueError"], "via": "attr", "realWith": False, "attrsInit": False, "exc": False, "adopt": False, "frozen": None,
+            "cacheHash": False}
     for k, v in base.items():
         if cfg.get(k) != v:
             yield dict(case, cfg=dict(cfg, **{k: v}))
@@ -1287,7 +1323,7 @@ LEVEL_TEXT = (
     "length <= 5 over the ten operations from both start positions on a structured pool of class hierarchies (base, "
     "subclasses adding / re-declaring validated fields, siblings, plain class in between; every reader names the class "
     "whose instance it works on; classes fresh per case; validators check they are called for their own class's "
-    "Attribute), reader sweeps over every order of the classes, plus 90k "
+    "Attribute), reader sweeps over every order of the classes, plus 45k "
     "random histories (length <= 12, depth <= 4, non-bool arguments, getters, random classes); quick = length <= 3 plus "
     "random to the time budget; observed after every operation: get_disabled(), get_run_validators(), returned value, "
     "exception kind, __exit__ result, and the exact sequence of pre-init/factory/converter/validator/post-init/on_setattr-hook "
